@@ -1198,7 +1198,16 @@ def short_mod(m):
     return m[len("embit."):] if m.startswith("embit.") else m
 
 
+SCANNED = []     # (short module, qualified name, first line incl. decorators, loaded function object?) of every function
+                 # the last collect() analysed - harness/aliasnames.py emits it beside the independent enumeration
+
+
+def _first_line(fd):
+    return min([fd.lineno] + [d.lineno for d in getattr(fd, "decorator_list", [])])
+
+
 def collect():
+    del SCANNED[:]
     mods, skipped = embit_modules()
     probes = Probes()
     sites = []
@@ -1233,6 +1242,7 @@ def collect():
             aq, fd, acls = ent
             visited.add(fd.lineno)
             stats["functions"] += 1
+            SCANNED.append((sm, q, def_line(f), True))
             analyse_function(sm, q, f, owner, fd, acls, probes, sites, buffers, class_memos, mod)
             if acls is not None:
                 class_nodes[acls.name] = acls
@@ -1240,6 +1250,7 @@ def collect():
         for line, (q, fd, cls) in adefs.items():
             if line in visited:
                 continue
+            SCANNED.append((sm, q, _first_line(fd), False))
             if ".<locals>." in q:
                 analyse_function(sm, q, None, None, fd, cls, probes, sites, buffers, class_memos, mod)
                 continue
